@@ -86,7 +86,7 @@ Qed.
 Lemma lvals_cons l j : lvals l (S j) = VNum (Fin (l 0%nat)) :: lvals (fun k => l (S k)) j.
 Proof. induction j as [|j IH]; [reflexivity|]. change (lvals l (S (S j))) with (lvals l (S j) ++ [num (l (S j))])%list. rewrite IH. reflexivity. Qed.
 Lemma sumexp_v_app a b : sumexp_v (a ++ b) = sumexp_v a + sumexp_v b.
-Proof. induction a as [|x a IH]; cbn [app sumexp_v fold_right]; [unfold sumexp_v; cbn; ring|]. fold (sumexp_v (a ++ b)). fold (sumexp_v a). rewrite IH. destruct x as [| | |x| | | | | |]; try ring. destruct x; ring. Qed.
+Proof. induction a as [|x a IH]; cbn [app sumexp_v fold_right]; [unfold sumexp_v; cbn; ring|]. fold (sumexp_v (a ++ b)). fold (sumexp_v a). rewrite IH. destruct x as [| | |x| | | | | | |]; try ring. destruct x; ring. Qed.
 Lemma sumexp_lvals l j : sumexp_v (lvals l j) = acc l j.
 Proof. induction j as [|j IH]; [reflexivity|]. cbn [lvals acc]. rewrite sumexp_v_app, IH. unfold sumexp_v, num. cbn. ring. Qed.
 
